@@ -738,6 +738,14 @@ def column_default():
         tail = sql.split("DEFAULT ", 1)[1]
         if _lex_literal(tail, "'", False) is None:
             return f"Column('c', 'JSON', default={v!r}) renders {sql!r}: the default is not one literal"
+    # strings that look like SQL (keywords, function calls, NULL, quotes) are values too: one quoted literal that
+    # decodes to the string
+    for v in ("current_timestamp", "CURRENT_DATE", " localtime ", "NULL", "now()", "TRUE", "it's", "a\\b", "DEFAULT",
+              "CURRENT_USER", "1", ""):
+        sql = str(Q.Column("c", "VARCHAR(40)", default=v))
+        tail = sql.split("DEFAULT ", 1)[1] if "DEFAULT " in sql else ""
+        if _lex_literal(tail, "'", False) != v:
+            return f"Column('c', 'VARCHAR(40)', default={v!r}) renders {sql!r}: the default is not one literal that decodes to the value"
     return None
 
 
